@@ -62,33 +62,34 @@ Proof.
   destruct (Z.ltb_spec s 0); [lia|]. destruct (Z.gtb_spec s len); lia.
 Qed.
 
-Lemma slice_guarded_ok {A} (content : list A) first second :
-  slice_guard (Z.of_nat (length content)) first second ->
-  exists r, slice_array content first second = Ok r.
+Lemma slice_rel_first_nonneg len f : (0 <= len)%Z -> (0 <= slice_rel_first len f)%Z.
+Proof. intros H. unfold slice_rel_first. destruct (Z.ltb_spec f 0); lia. Qed.
+
+(* after the fix: a result for every content and every pair of bounds *)
+Lemma slice_array_spec {A} (content : list A) first second :
+  let len := Z.of_nat (length content) in
+  let rf := slice_rel_first len first in
+  let rs := slice_rel_second len second in
+  slice_array content first second = Ok (firstn (Z.to_nat (rs - rf)) (skipn (Z.to_nat rf) content)).
 Proof.
-  intros G. unfold slice_array, slice_guard in *.
-  set (len := Z.of_nat (length content)) in *.
-  set (rf := slice_rel_first len first) in *.
-  set (rs := slice_rel_second len second) in *.
+  cbv zeta. unfold slice_array.
+  set (len := Z.of_nat (length content)).
+  set (rf := slice_rel_first len first).
+  set (rs := slice_rel_second len second).
   assert (Hrs : (rs <= len)%Z) by (apply slice_rel_second_le; lia).
+  assert (Hrf : (0 <= rf)%Z) by (apply slice_rel_first_nonneg; lia).
   destruct (Z.le_gt_cases rs rf) as [Hle|Hgt].
-  - replace (Z.to_nat (rs - rf)) with 0%nat by lia. eexists. reflexivity.
-  - destruct G as [G|G]; [|lia].
-    eexists. apply slice_loop_in_range; lia.
+  - replace (Z.to_nat (rs - rf)) with 0%nat by lia. reflexivity.
+  - apply slice_loop_in_range; lia.
 Qed.
 
-Lemma slice_unguarded_panics {A} (content : list A) first second :
-  ~ slice_guard (Z.of_nat (length content)) first second ->
-  slice_array content first second = Panic SliceContent.
-Proof.
-  intros G. unfold slice_array, slice_guard in *.
-  set (len := Z.of_nat (length content)) in *.
-  set (rf := slice_rel_first len first) in *.
-  set (rs := slice_rel_second len second) in *.
-  assert (Hrf : (rf < 0)%Z) by lia. assert (Hlt : (rf < rs)%Z) by lia.
-  destruct (Z.to_nat (rs - rf)) as [|n] eqn:E; [lia|].
-  cbn [slice_loop]. rewrite index_at_panic by lia. reflexivity.
-Qed.
+Lemma slice_array_no_panic {A} (content : list A) first second s :
+  slice_array content first second <> Panic s.
+Proof. rewrite slice_array_spec. discriminate. Qed.
+
+Lemma slice_node_no_panic {A} is_map (content : list A) first second s :
+  slice_node is_map content first second <> Panic s.
+Proof. unfold slice_node. destruct is_map; [discriminate|apply slice_array_no_panic]. Qed.
 
 Lemma slice_array_exec_eq {A} (content : list A) first second :
   slice_array_exec content first second = slice_array content first second.
@@ -98,29 +99,14 @@ Proof.
   set (rf := slice_rel_first len first).
   set (rs := slice_rel_second len second).
   assert (Hrs : (rs <= len)%Z) by (apply slice_rel_second_le; lia).
-  destruct (Z.ltb_spec rf 0) as [Hneg|Hpos].
-  - destruct (Z.le_gt_cases rs rf) as [Hle|Hgt].
-    + replace (Z.to_nat (Z.min (rs - rf) (len + 1))) with 0%nat by lia.
-      replace (Z.to_nat (rs - rf)) with 0%nat by lia. reflexivity.
-    + destruct (Z.to_nat (Z.min (rs - rf) (len + 1))) as [|n1] eqn:E1; [lia|].
-      destruct (Z.to_nat (rs - rf)) as [|n2] eqn:E2; [lia|].
-      cbn [slice_loop]. rewrite index_at_panic by lia. reflexivity.
-  - replace (Z.min (rs - rf) (len + 1)) with (rs - rf)%Z by lia. reflexivity.
+  assert (Hrf : (0 <= rf)%Z) by (apply slice_rel_first_nonneg; lia).
+  replace (Z.min (rs - rf) (len + 1)) with (rs - rf)%Z by lia. reflexivity.
 Qed.
 
-Lemma slice_guardb_spec len f s : slice_guardb len f s = true <-> slice_guard len f s.
-Proof.
-  unfold slice_guardb, slice_guard. rewrite orb_true_iff, !Z.leb_le. reflexivity.
-Qed.
-
-Lemma slice_panic_iff {A} (content : list A) first second :
-  (exists s, slice_array content first second = Panic s) <->
-  ~ slice_guard (Z.of_nat (length content)) first second.
-Proof.
-  split.
-  - intros [s Hs] G. destruct (slice_guarded_ok content first second G) as [r Hr]. congruence.
-  - intros G. exists SliceContent. apply slice_unguarded_panics. exact G.
-Qed.
+(* without the clamp (the code before the fix) the same loop panics *)
+Lemma slice_loop_unclamped_panics {A} (content : list A) n i :
+  (i < 0)%Z -> slice_loop (S n) i content = Panic SliceContent.
+Proof. intros H. cbn [slice_loop]. rewrite index_at_panic by lia. reflexivity. Qed.
 
 Lemma get_slice_number_no_panic results s : get_slice_number results <> Panic s.
 Proof.
@@ -135,6 +121,7 @@ Lemma traverse_index_no_panic {A} (null : A) content index s :
   traverse_index null content index <> Panic s.
 Proof.
   unfold traverse_index.
+  destruct (index - Z.of_nat (length content) >=? pad_limit)%Z; [discriminate|].
   set (padded := content ++ repeat null (pad_count (Z.of_nat (length content)) index)).
   assert (Hlen : Z.of_nat (length padded) =
                  (Z.of_nat (length content) + Z.max 0 (index + 1 - Z.of_nat (length content)))%Z).
@@ -148,15 +135,17 @@ Proof.
     rewrite Hx. discriminate.
 Qed.
 
-Lemma traverse_index_padding {A} (null : A) content index x padded :
+(* the padding loop adds at most pad_limit nodes *)
+Lemma traverse_index_padding_bounded {A} (null : A) content index x padded :
   traverse_index null content index = Ok (x, padded) ->
-  length padded = (length content + pad_count (Z.of_nat (length content)) index)%nat.
+  (Z.of_nat (length padded) <= Z.of_nat (length content) + pad_limit)%Z.
 Proof.
   unfold traverse_index.
+  destruct (Z.geb_spec (index - Z.of_nat (length content)) pad_limit) as [Hge|Hlt]; [discriminate|].
   set (p := content ++ repeat null (pad_count (Z.of_nat (length content)) index)).
   destruct (_ <? 0)%Z; [discriminate|].
   destruct (index_at _ _ _); cbn [obind]; try discriminate.
-  intros H. injection H as _ <-. unfold p. rewrite app_length, repeat_length. reflexivity.
+  intros H. injection H as _ <-. unfold p. rewrite app_length, repeat_length. unfold pad_count, pad_limit in *. lia.
 Qed.
 
 Lemma traverse_rhs_no_panic {A} (context : list A) collected s :
@@ -195,13 +184,14 @@ Proof.
     rewrite Hr. cbn [obind]. eexists. reflexivity.
 Qed.
 
-Lemma rotate_guarded_ok {A} (cands : list (list A)) :
-  rotate_guard cands -> exists r, rotate cands = Ok r.
+Lemma rotate_no_panic {A} (cands : list (list A)) s : rotate cands <> Panic s.
 Proof.
-  destruct cands as [|first cs]; cbn [rotate rotate_guard].
-  - intros _. eexists. reflexivity.
-  - intros H. apply rotate_cols_ok; [lia|].
-    eapply Forall_impl; [|exact H]. cbn. intros c Hc. lia.
+  destruct cands as [|first cs]; cbn [rotate]; [discriminate|].
+  destruct (forallb (fun c => (length first <=? length c)%nat) (first :: cs)) eqn:E; [|discriminate].
+  rewrite forallb_forall in E.
+  destruct (rotate_cols_ok (first :: cs) (length first) 0%Z ltac:(lia)) as [r Hr].
+  - apply Forall_forall. intros c Hc. specialize (E c Hc). apply Nat.leb_le in E. lia.
+  - rewrite Hr. discriminate.
 Qed.
 
 Lemma rotate_column_panic {A} (cands : list (list A)) i :
@@ -220,17 +210,25 @@ Qed.
 (* ------------------------------------------------------------------ *)
 (* repeat                                                              *)
 (* ------------------------------------------------------------------ *)
-Lemma repeat_panic_iff mem slen count :
-  (exists s, repeat_string mem slen count = Panic s) <->
-  (0 <= count <= repeat_limit /\ slen * count > mem)%Z.
+Lemma repeat_no_panic mem slen count s :
+  (repeat_bytes_limit <= mem)%Z -> (0 <= slen)%Z -> repeat_string mem slen count <> Panic s.
 Proof.
-  unfold repeat_string.
-  destruct (Z.ltb_spec count 0); [split; [intros [s Hs]; discriminate | lia]|].
-  destruct (Z.gtb_spec count repeat_limit); [split; [intros [s Hs]; discriminate | lia]|].
-  destruct (Z.gtb_spec (slen * count) mem); split; try lia.
-  - intros _. eexists. reflexivity.
-  - intros [s Hs]. discriminate.
+  intros Hm Hs. unfold repeat_string.
+  destruct (Z.ltb_spec count 0); [discriminate|].
+  destruct (Z.gtb_spec count repeat_limit); [discriminate|].
+  destruct (Z.ltb_spec 0 count) as [Hpos|Hz]; cbn [andb].
+  - destruct (Z.gtb_spec slen (repeat_bytes_limit / count)) as [|Hle]; [discriminate|].
+    assert (slen * count <= repeat_bytes_limit)%Z.
+    { pose proof (Z.mul_div_le repeat_bytes_limit count Hpos). nia. }
+    destruct (Z.gtb_spec (slen * count) mem); [lia|discriminate].
+  - assert (count = 0)%Z by lia. subst. rewrite Z.mul_0_r.
+    destruct (Z.gtb_spec 0 mem); [unfold repeat_bytes_limit in Hm; lia|discriminate].
 Qed.
+
+(* the count limit alone (the code before the fix) does not bound the product *)
+Lemma repeat_count_limit_insufficient :
+  exists slen count, (0 <= count <= repeat_limit)%Z /\ (slen * count > 2 ^ 46)%Z.
+Proof. exists 10000000%Z, 10000000%Z. vm_compute. repeat split; discriminate. Qed.
 
 (* ------------------------------------------------------------------ *)
 (* deepMatch: the restart loop terminates within deep_match_fuel       *)
